@@ -418,6 +418,8 @@ def rule_poll(ctx):
 # a raising callback of another waiter/listener must not keep the event from this waiter; filters are the registry's
 IMPORTS = [('C16', 'C16.CONTAIN'), ('C16', 'C16.FILTER'), ('C16', 'C16.RM'), ('C16', 'C16.DURING')]
 
+EXPLANATION = EXPLANATION + " C17.POLL also runs two waits on the same property at the same time (different delays and intervals), the first completed and the second pending for two polling turns: exactly the second's two re-requests at its own delay and interval must be sent (a pending wait always has its own poller)."
+
 RULES = [
     ("C17.COND", rule_cond, "released exactly when the condition holds (3 kinds x 3 event kinds x equal/different), returning that event"),
     ("C17.FLAG", rule_flag, "first completion wins: later events / timeouts do not change the outcome"),
